@@ -164,7 +164,18 @@ class World:
             self.solver.pop()
         STATS["z3_queries"] += 1
         STATS["z3_time"] += time.time() - t0
+        if r == z3.unknown:
+            # second opinion (string constraints: cvc5 decides most of what z3's sequence solver leaves open)
+            r2 = cvc5_check(self._smt2(extra if extra is not None else z3.BoolVal(True)), QUERY_TIMEOUT_MS)
+            if r2 == "unsat":
+                return z3.unsat
+            if r2 == "sat":
+                return z3.sat
         return r
+
+    def quick_z3(self, ms=1500):
+        """string-heavy tasks: give z3 a short budget per query and let cvc5 take its unknowns"""
+        self.solver.set("timeout", ms)
 
     def _smt2(self, extra):
         s = z3.Solver()
